@@ -1997,35 +1997,55 @@ def regex_users(rep):
             if isinstance(n, ast.Call) and isinstance(n.func, ast.Attribute) \
                     and n.func.attr == "group" and unparse(n.func.value) in var2rx:
                 rx = var2rx[unparse(n.func.value)]
-                g = const_value(n.args[0])
-                g = int(g) if g is not None else None
+                g = const_value(n.args[0]) if n.args else None
+                if g is None:
+                    raise AnalysisError(f"{q}: group number `{unparse(n)}` is not a literal")
+                g = int(g)
                 key = f"{RD}::{q}::{rx}.group({g})"
                 gi = info[rx].get(g)
                 if gi is None:
                     rep.violation("regex-groups", key, f"{rx} has no group {g}", node=n)
                     continue
                 par = getattr(n, "_parent", None)
-                is_int = isinstance(par, ast.Call) and unparse(par.func) == "int"
+                # the conversions of this group: int(m.group(g)) directly, or int(N) where N is
+                # the one name the group is bound to
+                conversions = []        # (int call, text that a presence test must test)
+                if isinstance(par, ast.Call) and unparse(par.func) == "int":
+                    conversions.append((n, unparse(n)))
+                if isinstance(par, ast.Assign) and len(par.targets) == 1 \
+                        and isinstance(par.targets[0], ast.Name) and par.value is n:
+                    N = par.targets[0].id
+                    nstores = sum(isinstance(x, ast.Name) and x.id == N
+                                  and isinstance(x.ctx, ast.Store) for x in ast.walk(fn))
+                    if nstores == 1:
+                        for c_ in ast.walk(fn):
+                            if isinstance(c_, ast.Call) and unparse(c_.func) == "int" \
+                                    and len(c_.args) == 1 and unparse(c_.args[0]) == N:
+                                conversions.append((c_.args[0], N))
+                is_int = bool(conversions)
                 ok = True
                 why = ""
                 if is_int and not gi["digits"]:
                     ok, why = False, f"int() applied to group {g}, which is not \\d+"
                 if is_int and gi["optional"]:
                     # must be guarded by a test of the same group
-                    guarded = False
-                    child = n
-                    for a in ancestors(n):
-                        # inside the true side of a test of that very group (truthiness or
-                        # `is not None`), as a conditional expression or an if statement
-                        if isinstance(a, (ast.IfExp, ast.If)):
-                            t = unparse(a.test)
-                            body = a.body if isinstance(a.body, list) else [a.body]
-                            inside = any(child is x or child in list(ast.walk(x)) for x in body)
-                            if inside and t in (unparse(n), unparse(n) + " is not None"):
-                                guarded = True
-                        child = a
-                    if not guarded:
-                        ok, why = False, f"optional group {g} converted without a presence test"
+                    for node_, txt in conversions:
+                        guarded = False
+                        child = node_
+                        for a in ancestors(node_):
+                            # inside the true side of a test of that very group (truthiness or
+                            # `is not None`), as a conditional expression or an if statement
+                            if isinstance(a, (ast.IfExp, ast.If)):
+                                t = unparse(a.test)
+                                body = a.body if isinstance(a.body, list) else [a.body]
+                                inside = any(child is x or child in list(ast.walk(x))
+                                             for x in body)
+                                if inside and t in (txt, txt + " is not None"):
+                                    guarded = True
+                            child = a
+                        if not guarded:
+                            ok, why = False, (f"optional group {g} converted without a "
+                                              "presence test")
                 rep.check(ok, "regex-groups", key, why, node=n)
     del uses
     # naming scheme of restart directories
